@@ -380,29 +380,37 @@ structure UnitOut where
 /-- `…ListOffsets::get(id)` for every id (`offsets[id.index]`) -/
 def handOver (offs : List Nat) (ids : List Nat) : List Nat := ids.map fun i => offs.getD i 0
 
+/-- `UnitOffsets::unit_offset` for the DIEs of the unit -/
+def unitEOff (u : UnitIn) : EOff := fun i => u.eoff[i]?
+
+/-- the root DIE's `DW_AT_low_pc` is written with `write_address` (after the lists) -/
+def writeLowPc (c : Cfg) : Option Addr → Out Bytes
+  | none => .ok []
+  | some a => writeAddress c a
+
+/-- the observable result: ids, the offsets handed to the attributes, and the four list sections
+(`.debug_ranges` / `.debug_loc` up to DWARF 4, `.debug_rnglists` / `.debug_loclists` in DWARF 5) -/
+def mkOut (c : Cfg) (rids lids : List Nat) (r l : Bytes × List Nat) : UnitOut :=
+  let legacy := decide (c.version ≤ 4)
+  { rngIds := rids, locIds := lids,
+    rngOffs := handOver r.2 rids, locOffs := handOver l.2 lids,
+    debugRanges := if legacy then r.1 else [],
+    debugRnglists := if legacy then [] else r.1,
+    debugLoc := if legacy then l.1 else [],
+    debugLoclists := if legacy then [] else l.1 }
+
 /-- The list-related part of `Unit::write` into fresh `Sections` (the unit is the first one:
 `uoff = 0`): version check of the unit header, `have_base_address`, the range list table, the
 location list table (DIE offsets are known by then), and finally the root DIE's `DW_AT_low_pc`
 (written with `write_address`, which can still fail). -/
 def writeUnit (m : Mode) (u : UnitIn) : Out UnitOut :=
-  let c := u.cfg
-  if ¬ (2 ≤ c.version ∧ c.version ≤ 5) then .err .wUnsupportedVersion else do
-  let eo : EOff := fun i => u.eoff[i]?
+  if ¬ (2 ≤ u.cfg.version ∧ u.cfg.version ≤ 5) then .err .wUnsupportedVersion else do
   let hb := haveBaseAddress u.lowPc
-  let (rtbl, rids) := addAll [] u.rng
-  let (ltbl, lids) := addAll [] u.loc
-  let (rbytes, roffs) ← writeTable m .rng c eo 0 hb 0 rtbl
-  let (lbytes, loffs) ← writeTable m .loc c eo 0 hb 0 ltbl
-  let _ ← match u.lowPc with
-    | none => (.ok [] : Out Bytes)
-    | some a => writeAddress c a
-  let legacy := decide (c.version ≤ 4)
-  pure {
-    rngIds := rids, locIds := lids,
-    rngOffs := handOver roffs rids, locOffs := handOver loffs lids,
-    debugRanges := if legacy then rbytes else [],
-    debugRnglists := if legacy then [] else rbytes,
-    debugLoc := if legacy then lbytes else [],
-    debugLoclists := if legacy then [] else lbytes }
+  let ra := addAll [] u.rng
+  let la := addAll [] u.loc
+  let r ← writeTable m .rng u.cfg (unitEOff u) 0 hb 0 ra.1
+  let l ← writeTable m .loc u.cfg (unitEOff u) 0 hb 0 la.1
+  let _ ← writeLowPc u.cfg u.lowPc
+  pure (mkOut u.cfg ra.2 la.2 r l)
 
 end Gimli.WLists
